@@ -389,3 +389,99 @@ Section Rec.
     apply (rec_same_content _ _ _ R1 I2). intros t d. symmetry. apply Same.
   Qed.
 End Rec.
+
+(* ---------- membership does not depend on the payloads: relabelling every payload of a history by any
+   function (e.g. the constant one) leaves every membership answer unchanged *)
+Section Relabel.
+  Context {K V W : Type} `{EqDec K}.
+  Variable g : V -> W.
+
+  Definition vmap (m : al K V) : al K W := map (fun e => (fst e, g (snd e))) m.
+
+  Lemma lookup_vmap k m : lookup k (vmap m) = option_map g (lookup k m).
+  Proof. unfold vmap. induction m as [|[k' v] m IH]; cbn; [reflexivity|]. destruct (eqb k k'); [reflexivity | assumption]. Qed.
+
+  Lemma mem_vmap k m : mem k (vmap m) = mem k m.
+  Proof. unfold mem. rewrite lookup_vmap. destruct (lookup k m); reflexivity. Qed.
+
+  Lemma insert_vmap k v m : insert k (g v) (vmap m) = vmap (insert k v m).
+  Proof. unfold vmap. induction m as [|[k' v'] m IH]; cbn; [reflexivity|]. destruct (eqb k k'); cbn; [reflexivity | rewrite IH; reflexivity]. Qed.
+
+  Lemma remove_vmap k m : remove k (vmap m) = vmap (remove k m).
+  Proof. unfold vmap. induction m as [|[k' v'] m IH]; cbn; [reflexivity|]. destruct (eqb k k'); cbn; [assumption | rewrite IH; reflexivity]. Qed.
+
+  Lemma filter_key_vmap (f : K -> bool) m :
+    List.filter (fun e => f (fst e)) (vmap m) = vmap (List.filter (fun e => f (fst e)) m).
+  Proof. unfold vmap. induction m as [|[k' v'] m IH]; cbn; [reflexivity|]. destruct (f k'); cbn; rewrite IH; reflexivity. Qed.
+
+  Lemma is_nil_vmap m : is_nil (vmap m) = is_nil m.
+  Proof. destruct m; reflexivity. Qed.
+End Relabel.
+
+Section RelabelRec.
+  Context {D P Q : Type} `{EqDec D}.
+  Variable f : P -> Q.
+
+  Definition mop_map (o : mop D P) : mop D Q :=
+    match o with
+    | SetPair t d p => SetPair t d (f p)
+    | SetTs t l => SetTs t (map (fun e => (fst e, f (snd e))) l)
+    | DelPair t d => DelPair t d
+    | DelTs t => DelTs t
+    | HasTs t => HasTs t
+    | HasPair t d => HasPair t d
+    | GetPair t d => GetPair t d
+    | GetTs t => GetTs t
+    | Pairs => Pairs
+    | Len => Len
+    | Bad => Bad
+    end.
+
+  Lemma ts_of_vmap (a : amap D P) t : ts_of (vmap f a) t = vmap f (ts_of a t).
+  Proof. apply (filter_key_vmap f (fun k => eqb (fst k) t)). Qed.
+  Lemma drop_ts_vmap (a : amap D P) t : drop_ts (vmap f a) t = vmap f (drop_ts a t).
+  Proof. apply (filter_key_vmap f (fun k => negb (eqb (fst k) t))). Qed.
+
+  Lemma fold_insA_vmap t (l : list (D * P)) : forall (b : amap D P),
+    fold_left (fun acc e => insert (t, fst e) (snd e) acc) (map (fun e => (fst e, f (snd e))) l) (vmap f b) =
+    vmap f (fold_left (fun acc e => insert (t, fst e) (snd e) acc) l b).
+  Proof.
+    induction l as [|e l IH]; intros b; cbn; [reflexivity|]. rewrite insert_vmap. apply IH.
+  Qed.
+
+  Lemma s_step_vmap (a : amap D P) o : snd (s_step (vmap f a) (mop_map o)) = vmap f (snd (s_step a o)).
+  Proof.
+    destruct o as [t d p|t l|t d|t|t|t d|t d|t| | |]; cbn [mop_map s_step snd]; try reflexivity.
+    - apply insert_vmap.
+    - rewrite drop_ts_vmap. apply fold_insA_vmap.
+    - rewrite mem_vmap. destruct (mem (t, d) a); cbn; [apply remove_vmap | reflexivity].
+    - rewrite ts_of_vmap, is_nil_vmap. destruct (is_nil (ts_of a t)); cbn; [reflexivity | apply drop_ts_vmap].
+  Qed.
+
+  Lemma s_run_vmap ops : forall (a : amap D P),
+    snd (s_run (vmap f a) (map mop_map ops)) = vmap f (snd (s_run a ops)).
+  Proof.
+    induction ops as [|o ops IH]; intros a; cbn [map s_run]; [reflexivity|].
+    pose proof (s_step_vmap a o) as E.
+    destruct (s_step (vmap f a) (mop_map o)) as [r1 a1], (s_step a o) as [r2 a2]. cbn [snd] in E. subst a1.
+    specialize (IH a2). destruct (s_run (vmap f a2) (map mop_map ops)) as [rs1 b1], (s_run a2 ops) as [rs2 b2].
+    cbn [snd] in *. exact IH.
+  Qed.
+
+  (* the two membership answers of the concrete machine *)
+  Definition has_pair {X} (x : nested D X) (t : Z) (d : D) : bool := opt_true (lookup2 t d x).
+  Definition has_ts {X} (x : nested D X) (t : Z) : bool := mem t x.
+
+  Lemma has_pair_spec {X} (x : nested D X) a t d : Rel x a -> has_pair x t d = mem (t, d) a.
+  Proof. intros [_ [_ Rxa]]. unfold has_pair. rewrite Rxa. reflexivity. Qed.
+
+  Theorem rec_membership_ignores_payload (ops : list (mop D P)) t d :
+    has_pair (snd (m_run [] (map mop_map ops))) t d = has_pair (snd (m_run [] ops)) t d /\
+    has_ts (snd (m_run [] (map mop_map ops))) t = has_ts (snd (m_run [] ops)) t.
+  Proof.
+    pose proof (reachable_Rel ops) as R1. pose proof (reachable_Rel (map mop_map ops)) as R2.
+    change (@nil (Z * D * Q)) with (vmap f (@nil (Z * D * P))) in R2. rewrite s_run_vmap in R2. split.
+    - rewrite (has_pair_spec _ _ t d R1), (has_pair_spec _ _ t d R2). apply mem_vmap.
+    - unfold has_ts. rewrite (has_ts_eq _ _ t R1), (has_ts_eq _ _ t R2), ts_of_vmap, is_nil_vmap. reflexivity.
+  Qed.
+End RelabelRec.
